@@ -1,4 +1,81 @@
-(* placeholder until the agent model lands: keeps the build target alive *)
-From Coq Require Import NArith.
-Theorem C05_placeholder : (0 = 0)%N. Proof. reflexivity. Qed.
-Print Assumptions C05_placeholder.
+(* C05 - ending a session reclaims everything it ever acquired.  Statements only.
+   [reclaimed a s] (Proofs/AgentProofs.v): no pdrLookup / farLookup / Qos entry under any key the session's
+   current rules denote, its UP-chosen TEIDs are free again, its UE address is back in the pool (when one of
+   its stored PDRs carries the allocation flag), and the gauge went down by one. *)
+From Coq Require Import NArith List Bool.
+From UPF Require Import Model.IPPool Model.Fteid Model.PortRange Model.Agent Proofs.AgentProofs.
+Import ListNotations.
+Open Scope N_scope.
+
+(* Session Deletion *)
+Theorem C05_deletion : forall a c seid s a' c' o,
+  find_session seid (c_sessions c) = Some s -> handle_del a c seid = (a', c', o) ->
+  (exists r, o_reply o = Some (RDel r CAUSE_OK)) ->
+  reclaimed a' s /\ a_gauge a' = a_gauge a - 1 /\ find_session seid (c_sessions c') = None /\
+  o_reply o = Some (RDel (s_rseid s) CAUSE_OK).
+Proof. exact handle_del_accepted. Qed.
+Print Assumptions C05_deletion.
+
+(* Association Release, read timeout, heartbeat failure, stop: Shutdown() over ANY number of stored sessions;
+   every one of them is reclaimed, the gauge drops by their number, and what had been reclaimed before stays so *)
+Theorem C05_shutdown : forall ss a a' cmds,
+  NoDup (map s_lseid ss) -> shutdown_sessions a ss = (a', cmds) ->
+  (forall s, In s ss -> reclaimed a' s) /\ a_gauge a' = a_gauge a - N.of_nat (length ss) /\
+  (forall s0, reclaimed a s0 -> ~ In (s_lseid s0) (map s_lseid ss) -> reclaimed a' s0).
+Proof. exact shutdown_sessions_reclaims. Qed.
+Print Assumptions C05_shutdown.
+
+(* Session Report answered "session context not found" *)
+Theorem C05_report_context_not_found : forall a c seid s a' c' o,
+  find_session seid (c_sessions c) = Some s ->
+  handle_report_rsp a c seid (Some (IOk CAUSE_NOTFOUND)) = (a', c', o) ->
+  reclaimed a' s /\ a_gauge a' = a_gauge a - 1 /\ find_session seid (c_sessions c') = None /\ o_reply o = None.
+Proof. exact report_rsp_not_found. Qed.
+Print Assumptions C05_report_context_not_found.
+
+(* whatever rejected requests preceded: a rejected establishment keeps nothing (no datapath write, no stored
+   session, gauge unchanged); a rejected modification of an unknown session changes nothing at all *)
+Theorem C05_rejected_establishment_keeps_nothing : forall burst a c nid cpf pdrs fars qers draws a' c' o,
+  handle_est burst a c nid cpf pdrs fars qers draws = Done (a', c', o) ->
+  (forall s n u cr, o_reply o <> Some (REst s CAUSE_OK n u cr)) ->
+  o_cmds o = [] /\ a_tables a' = a_tables a /\ c' = c /\ a_gauge a' = a_gauge a /\ o_markers o = [].
+Proof. exact est_rejected. Qed.
+Print Assumptions C05_rejected_establishment_keeps_nothing.
+
+(* what was reclaimed is not brought back by the ending of another session *)
+Theorem C05_reclaimed_is_stable : forall a s0 s a' cmds,
+  reclaimed a s0 -> end_session a s = (a', cmds) -> s_lseid s <> s_lseid s0 -> reclaimed a' s0.
+Proof. exact end_session_keeps. Qed.
+Print Assumptions C05_reclaimed_is_stable.
+
+(* FULL statement ("everything allocated for it is returned ... whatever requests preceded") is false of the
+   faithful model: [reclaimed] finds the UE address through the allocation flag of a STORED PDR.  Witness (finding
+   F37): the allocating PDR 2 is removed by an accepted modification while PDR 1 stays; after the accepted
+   deletion the pool still holds the session's address. *)
+Theorem C05_ue_address_refuted :
+  exists a c m1 a1 c1 o1 a2 c2 o2,
+    pool_holds (a_pool a) 5 = true /\
+    handle (fun _ _ _ => 0) a c true m1 [] = Done (a1, c1, o1) /\ o_reply o1 = Some (RMod 77 CAUSE_OK) /\
+    handle_del a1 c1 5 = (a2, c2, o2) /\ o_reply o2 = Some (RDel 77 CAUSE_OK) /\ c_sessions c2 = [] /\
+    pool_holds (a_pool a2) 5 = true.
+Proof.
+  set (p1 := Pdr 1 5 1 255 0 0 0 0 9 10 1 [] 0 false false 9 4294967295 0 0 (PR 0 0) (PR 0 0) 0 0).
+  set (p2 := Pdr 2 5 2 255 0 0 0 0 50 10 2 [] 0 true false 0 0 50 4294967295 (PR 0 0) (PR 0 0) 0 0).
+  exists (Agent (Cfg 100 200 true) (Some (Pool [51; 52] [(5, 50)])) (Gen 0 []) 1 no_tables).
+  exists (Conn 7 [] [Sess 5 77 (s_of [p1; p2]) (s_of []) (s_of [])] 0).
+  exists (MMod 5 None [] [] [] [] [] [] [IOk 2] [] []).
+  do 6 eexists. repeat split; vm_compute; reflexivity.
+Qed.
+Print Assumptions C05_ue_address_refuted.
+
+(* non-vacuity of C05_deletion: a session with a CHOOSE PDR, a FAR and an application QER, all installed *)
+Example C05_nonvacuous :
+  let p := Pdr 1 5 1 255 100 4294967295 3 4294967295 0 10 1 [1] 1 false true 0 0 0 0 (PR 0 0) (PR 0 0) 0 0 in
+  let f := Far 1 5 1 false 2 0 200 0 0 0 in
+  let q := Qer 1 5 0 9 0 0 1000 1000 0 0 in
+  let s := Sess 5 77 (s_of [p]) (s_of [f]) (s_of [q]) in
+  let t := apply_cmds (add_cmds (fun _ _ _ => 0) [p] [f] [q]) no_tables in
+  let a := Agent (Cfg 100 200 true) None (Gen 3 [2]) 1 t in
+  exists a' c' o, handle_del a (Conn 7 [] [s] 0) 5 = (a', c', o) /\ o_reply o = Some (RDel 77 CAUSE_OK) /\
+                  a_tables a' = no_tables /\ used (a_teids a') = [] /\ a_gauge a' = 0 /\ length (o_cmds o) = 4%nat.
+Proof. do 3 eexists. repeat split; vm_compute; reflexivity. Qed.
